@@ -31,17 +31,17 @@ MODELLED_NOT_VERIFIED = [
     "C17: out-of-domain inputs are compared only up to 'Undefined' for statistics (non-binary trees for Colless/gamma, 2 leaves for gamma "
     "and Colless-max, None lengths / zero total for treeness); num_lineages_at on zero-length edges is compared with the model only",
 ]
-EXPLANATION = ("Theorems (Props/C17.lean) about the definitions drv_c17 runs, numbers read in Q through Frac.toRat: ages_spec / "
-               "ages_exact_spec (paths within eps => accepted, every age within eps of / equal to every tip distance), age_is_tip_distance, "
-               "reject_iff_local (the code's exact local criterion), accepted_bound (accepted => |age - tip distance| <= height*eps at "
-               "every node), reject_beyond_bound (two paths differing by > 2*height*eps => rejected), reject_only_beyond_precision, "
-               "check_disabled_spec, force_max/min/both_spec, default_precision_enables_check, lengths_from_ages_roundtrip_partial "
-               "(exactly ultrametric only), lineages_spec, leaf_depths_spec, minmax_spec, length/sackin/nbar/harmonic/colless/b1/treeness "
-               "_eq_def, gamma_loop_eq_sums, gamma_eq_def_partial (end to end from the sorted speciation ages; the lineage-count reading "
-               "of the intervals is not proved), stats_perm_invariant_partial (child order for the functions the driver runs; gamma "
-               "missing: tested only). The literal clause 'paths differing by more than the precision are rejected' is false of the "
-               "code (deviations accumulate along first-child chains): evaluated by the oracle and listed as known finding "
-               "ultrametricity-drift-accumulates. Internal-node depths / resolve_node_ages: oracle and correspondence only.")
+EXPLANATION = ("Theorems (Props/C17.lean) about the definitions drv_c17 runs, numbers read in Q through Frac.toRat. Ages: ages_spec, "
+               "ages_exact_spec, age_is_tip_distance, reject_iff_local, accepted_bound, reject_beyond_bound, reject_only_beyond_precision, "
+               "check_disabled_spec, force_max/min/both_spec, default_precision_enables_check, returned_list_spec. Lengths from ages: "
+               "lengths_from_ages_roundtrip (within the precision for every accepted tree, exact on ultrametric ones; "
+               "lengths_from_ages_within, ..._roundtrip_partial), set_lengths_spec (arbitrary ages, every minimum, error flag). Root "
+               "distances: leaf_depths_spec, node_depths_spec (all nodes), minmax_spec, resolve_ages_spec. Lineages: lineages_spec, "
+               "lineages_between_speciations (j+2 lineages between the j-th and (j+1)-th speciation). Statistics: length/sackin/nbar/"
+               "harmonic/colless/b1/treeness _eq_def, gamma_loop_eq_sums, gamma_eq_def (end to end incl. the lineage reading of the "
+               "intervals; gamma_eq_def_partial kept), stats_perm_invariant (child order for every statistic incl. gamma via "
+               "gamma_perm_invariant; ..._partial kept). The literal clause 'paths differing by more than the precision are rejected' is "
+               "false of the code: evaluated by the oracle, known finding ultrametricity-drift-accumulates.")
 
 EPS_ABS = Fraction(1, 10 ** 12)
 REL = Fraction(1, 10 ** 9)
